@@ -71,6 +71,12 @@ def cdiff(a, b):
     return d
 
 
+def faulted(st):
+    """a fault was injected into one of the operation's outgoing messages (a probe whose handler refused, or emitted nothing,
+    never reached the fault: it is the real execution)"""
+    return st["op"].get("fail") is not None and st.get("emitted", 0) > 0
+
+
 def actor(op):
     t = op["t"]
     if t == "exec":
@@ -238,7 +244,7 @@ def m_c01(ctx, st):
 
 def m_c02(ctx, st):
     op = st["op"]
-    if op["t"] != "exec" or op["msg"]["k"] != "buy" or op.get("fail") is not None:
+    if op["t"] != "exec" or op["msg"]["k"] != "buy" or faulted(st):
         return
     if op["funds"]:
         return  # C19's domain
@@ -579,7 +585,7 @@ def m_c11_refusal(ctx, st):
     terms are met (which includes distinct rates summing to at most 5000 on either side) and that involves registered
     collections is not refused"""
     op = st["op"]
-    if op["t"] != "exec" or op["msg"]["k"] != "buy" or st["outcome"] == "ok" or op.get("fail") is not None or op["funds"]:
+    if op["t"] != "exec" or op["msg"]["k"] != "buy" or st["outcome"] == "ok" or faulted(st) or op["funds"]:
         return
     v = purchase_view(ctx, st["pre"], op["sender"], op["msg"]["lid"], op["msg"]["bid"])
     if v["met_strict"] and not v.get("hostile") and (v["seller_rates"] or v["buyer_rates"]):
@@ -788,6 +794,32 @@ def valid_ask(ctx, g, valid_addr):
     return all(valid_addr(t) for t, _ in g["cw20"]) and all(valid_addr(c) for c, _ in g["nfts"])
 
 
+def ids_created_before(sess, i, kind):
+    """ids for which a creation of `kind` ('create_listing' / 'create_bucket') was accepted before step i, by any path"""
+    out = set()
+    for st in sess.steps[:i]:
+        if st["outcome"] != "ok":
+            continue
+        op = st["op"]
+        m = None
+        if op["t"] == "exec":
+            m = op["msg"]
+            if m["k"] in ("receive", "receive_nft"):
+                m = m.get("inner")
+        elif op["t"] in ("cw20_send", "nft_send"):
+            m = op.get("inner")
+        if m and m.get("k", "").startswith(kind):
+            out.add(m["id"])
+        for n, okk in zip(op.get("reentry") or [], st.get("nested") or []):
+            mm2 = n.get("msg") if n["t"] == "exec" else n.get("inner")
+            if okk and mm2:
+                if mm2.get("k") in ("receive", "receive_nft"):
+                    mm2 = mm2.get("inner")
+                if mm2 and mm2.get("k", "").startswith(kind):
+                    out.add(mm2["id"])
+    return out
+
+
 def deposit_should_succeed(ctx, st, mm):
     """None when the property text does not decide (e.g. the depositor cannot afford it)."""
     k, m, dep, path = mm
@@ -814,8 +846,10 @@ def deposit_should_succeed(ctx, st, mm):
             return False
     rid = m["id"]
     if k in ("create_listing", "create_bucket"):
-        used = pre["l_used"] if k == "create_listing" else pre["b_used"]
-        if rid == 0 or rid >= MAX_SAFE_INT or str(rid) in used:
+        # "fresh" is judged on the history (ids accepted for a creation so far, through any path), not on the implementation's
+        # own used-id tables: a table that marks the wrong id space must not be able to excuse a refusal
+        used = ids_created_before(ctx.s, st["i"], k)
+        if rid == 0 or rid >= MAX_SAFE_INT or rid in used:
             return False
         if k == "create_listing":
             if not valid_ask(ctx, m["ask"], valid_addr):
